@@ -165,7 +165,7 @@ def run_facet(prop, facet, tier, seed_value, muted, deadline, shard=0, nshards=1
                 if len(stats.violations) >= MAX_ROOT_CAUSES:
                     complete = False
                     break
-        stats.exhaustive = complete and facet.strategy is None
+        stats.exhaustive = complete
 
     if facet.strategy is None:
         return stats
@@ -497,7 +497,7 @@ def run_check(pid, tier):
             "distinct_nontrivial": total_nt,
             "rule": prop.rule,
             "samples": samples or [{"note": "no non-trivial sample"}],
-            "exhaustive": bool(facets) and all(m["exhaustive"] for m in facets.values()),
+            "exhaustive": False,   # every facet also samples an unbounded space; exhaustive sub-enumerations are reported per facet
             "facets": {
                 name: {"evaluations": m["evaluations"], "nontrivial": m["nontrivial"],
                        "distinct_nontrivial": len(m["nt"]), "classes": dict(m["classes"]),
